@@ -184,4 +184,32 @@ def writeArraysMeta (h : Heap) (m : Addr) (nodeMd edgeMd : List PropMd) (haveNod
   let (h2, m2) := addOrUpdatePropsMetadata h1 m1 edgeMd false
   if haveNodeProps then computeAndAddAxisMinMax h2 m2 data else (h2, some m2)
 
+/-- the names of the axes of a metadata object (`[ax.name for ax in metadata.axes]`) -/
+def axisNames (h : Heap) (m : Addr) : List String :=
+  match h[m]? with
+  | some (.geffMeta (some l) _ _ _) =>
+    match h[l]? with
+    | some (.axesList items) => items.filterMap fun a =>
+        match h[a]? with
+        | some (Obj.axis nm _ _) => (some nm : Option String)
+        | _ => none
+    | _ => []
+  | _ => []
+
+/-- `write_arrays` with its first loop ("Create empty arrays for axis properties in an empty
+geff"): for an empty graph every axis whose name is not a key of the caller's `node_props` *dict*
+gets a float64 placeholder array there (an edit of that dict, which the property allows).  The loop
+only **reads** `metadata.axes` / `ax.name`: the heap is passed on unchanged.  The placeholders then
+take part in the rest like any other property: they get a metadata entry and count as empty axis
+data. -/
+def writeArraysFull (h : Heap) (m : Addr) (nodeMd edgeMd : List PropMd)
+    (haveNodeProps emptyGraph : Bool) (data : String → AxisData) : Heap × Option Addr :=
+  let ph : List String :=
+    if emptyGraph && haveNodeProps then
+      (axisNames h m).filter fun nm => !(nodeMd.any (·.identifier == nm))
+    else []
+  let nodeMd' := nodeMd ++ ph.map fun nm => (⟨nm, "float64", false, none⟩ : PropMd)
+  let data' : String → AxisData := fun nm => if ph.contains nm then .empty else data nm
+  writeArraysMeta h m nodeMd' edgeMd haveNodeProps data'
+
 end Geff.MetaHeap
